@@ -323,10 +323,21 @@ func runC05(c *run.Ctx) {
 				ggql.MaxResolveDepth = 300
 			}
 			sels := []model.Sel{&model.Field{Name: fname}}
+			doc := &model.Doc{}
+			frags := k%3 == 1
+			if frags {
+				// every selection set sits in an inline fragment and the leaf in a named one: fragments are no levels of the
+				// response, a request 60-90 fields deep stays within the limit however many fragments it is written with
+				doc.Frags = []*model.FragDef{{Name: "Leaf", Cond: "Query", Sels: sels}}
+				sels = []model.Sel{&model.Spread{Name: "Leaf"}}
+			}
 			for d := 0; d < depth; d++ {
 				sels = []model.Sel{&model.Field{Name: "obj", Sels: sels}}
+				if frags {
+					sels = []model.Sel{&model.Inline{Cond: []string{"Query", ""}[d%2], Sels: sels}}
+				}
 			}
-			doc := &model.Doc{Ops: []*model.Op{{Kind: "query", Shorthand: true, Sels: sels}}}
+			doc.Ops = []*model.Op{{Kind: "query", Shorthand: true, Sels: sels}}
 			text := doc.Print(model.LayoutN(0))
 			out := Do(h, Request{Text: text}, nil)
 			exp := ref.Execute(s, doc, "", nil, g, nil, ref.Flags{})
@@ -335,9 +346,13 @@ func runC05(c *run.Ctx) {
 			if k%2 == 0 {
 				c.Count("deep_chain_conversions_beyond_default_limit", 1)
 			}
-			diff := Compare(exp, out, CompareOpts{})
+			if frags {
+				c.Count("deep_chain_conversions_through_fragments", 1)
+			}
+			// (error paths under a named spread carry ggql's "fragment at L:C" segment: C06's open finding, not this property's subject)
+			diff := Compare(exp, out, CompareOpts{StripFragSeg: true})
 			if diff != "" && flags != (ref.Flags{}) {
-				if Compare(ref.Execute(s, doc, "", nil, g, nil, flags), out, CompareOpts{}) == "" {
+				if Compare(ref.Execute(s, doc, "", nil, g, nil, flags), out, CompareOpts{StripFragSeg: true}) == "" {
 					diff = ""
 				}
 			}
